@@ -44,18 +44,17 @@ func fetchKeys(iterator func(string) ([]string, string, error), keyBatchChan cha
 			return
 		}
 
-		if len(ks) == 0 {
-			break
-		}
-
-		select {
-		case keyBatchChan <- keyBatchEvent{keys: ks}:
-		case <-doneChan:
+		if len(ks) > 0 {
+			// a page may be empty (e.g. entirely filtered out) while the listing continues
 			select {
-			case keyBatchChan <- keyBatchEvent{err: status.ErrInterrupted}:
-			default:
+			case keyBatchChan <- keyBatchEvent{keys: ks}:
+			case <-doneChan:
+				select {
+				case keyBatchChan <- keyBatchEvent{err: status.ErrInterrupted}:
+				default:
+				}
+				return
 			}
-			return
 		}
 
 		if next == "" {
